@@ -552,13 +552,13 @@ class Body:
         self._defs = defs
         return defs
 
-    def reaching(self, l, bb, pos):
+    def reaching(self, l, bb, pos, field=None):
         """definitions of local l reaching the point just before position `pos` of block bb.
 
         Back edges are not followed: a value that arrives over the back edge of the loop headed by h is
         reported as ('carried', l, h), so the result depends on (l, bb, pos) only and the induced
         recursion of Dag.local is over an acyclic graph."""
-        byblock = self._defs_by_block(l)
+        byblock = self._defs_by_block(l, field)
         cand = [d for d in byblock.get(bb, ()) if d[1] < pos]
         if cand:
             return [cand[-1]]
@@ -598,14 +598,19 @@ class Body:
                 return blocks
         return ()
 
-    def _defs_by_block(self, l):
+    def _defs_by_block(self, l, field=None):
+        """definitions of local l per block; with `field`, in-place writes that only touch OTHER fields are ignored"""
         c = self.__dict__.setdefault('_dbb', {})
-        if l not in c:
+        if (l, field) not in c:
             byblock = defaultdict(list)
             for d in self.defs().get(l, []):
+                if field is not None and d[2] == 'mut':
+                    path = d[3].path
+                    if path and path[0] != field and not path[0].startswith('as '):
+                        continue
                 byblock[d[0]].append(d)
-            c[l] = byblock
-        return c[l]
+            c[(l, field)] = byblock
+        return c[(l, field)]
 
     # ---------------------------------------------------------------- sites
     def calls(self, glob=None):
@@ -702,7 +707,14 @@ class Dag:
         return ('other',)
 
     def place(self, pl, bb, pos):
-        base = self.local(pl['l'], bb, pos)
+        first = None
+        for e in pl['p']:
+            if e == 'deref':
+                continue
+            if isinstance(e, dict) and 'f' in e:
+                first = e['n'] or str(e['f'])
+            break
+        base = self.local(pl['l'], bb, pos, first)
         return self.project(base, pl['p'], bb, pos)
 
     def project(self, base, proj, bb, pos):
@@ -722,15 +734,15 @@ class Dag:
                 base = ('proj?', base)
         return base
 
-    def local(self, l, bb, pos):
-        key = (l, bb, pos)
+    def local(self, l, bb, pos, field=None):
+        key = (l, bb, pos, field)
         if key in self.memo:
             return self.memo[key]
         if key in self.stack:
             return ('loop', l, -1)      # cannot happen on a reducible CFG; kept as a safety net
         self.stack.add(key)
         try:
-            ds = self.b.reaching(l, bb, pos)
+            ds = self.b.reaching(l, bb, pos, field)
             alts = []
             for d in ds:
                 if d[0] == 'param':
@@ -740,7 +752,7 @@ class Dag:
                 elif d[0] == 'carried':
                     alts.append(('loop', d[1], d[2]))
                 else:
-                    alts.append(self.defdag(l, d))
+                    alts.append(self.defdag(l, d, field))
         finally:
             self.stack.discard(key)
         r = mk_phi(alts)
@@ -766,13 +778,13 @@ class Dag:
         args = tuple(self.operand(a, bb, n) for a in t['args'])
         return norm_call(name, args, self.b, t)
 
-    def defdag(self, l, d):
+    def defdag(self, l, d, field=None):
         bi, pos, kind, payload = d
         if kind == 'call':
             return self.call_dag(payload, bi)
         if kind == 'mut':
             m = payload
-            prev = self.local(l, bi, pos) if True else None
+            prev = self.local(l, bi, pos, field)
             if m.kind == 'store':
                 val = self.rvalue(m.data['rv'], bi, pos)
                 return mk_update(prev, m.path, val)
